@@ -5,34 +5,52 @@ open FlexModel.Proto
 
 def optNat? (s : String) : Option (Option Nat) :=
   if s == "-" then some none else (nat? s).map some
+def optInt? (s : String) : Option (Option Int) :=
+  if s == "-" then some none else (int? s).map some
 
 def b (x : Bool) : String := if x then "1" else "0"
 
+def showPos : Option Pos → String
+  | none => "-"
+  | some p => s!"{p.1},{p.2}"
+
 def stLine (s : State) : String :=
-  s!"st {b s.active} {b s.armed} {s.tGenCam} {s.nGenCam} {s.camCount}"
+  s!"st {b s.active} {s.live} {b s.tracked} {s.tGenCam} {s.nGenCam} {s.camCount} {showPos s.lastPos}"
+
+def fail? : String → Option Fail
+  | "0" => some .none | "1" => some .build | "2" => some .encode | "3" => some .btp | "4" => some .ldm
+  | _ => none
 
 /-- one op per line:
-  init role tw hasSpecial | start | stop | report rid its|- heading|- speed|- hasPos | check now dist sendOk -/
+  init role tw hasSpecial ldmIsolated restartHold | start | stop | report rid its|- heading|- speed|- lat7|- lon7|-
+  | expire tracked | check now dist fail      (dist = haversine distance [mm] of the model's reference position and the
+  current report's position, from the harness's independent oracle: the driver runs the step with `hav := fun _ _ => dist`) -/
 def camStep (s : State) (t : List String) : State × String :=
   match t with
-  | ["init", role, tw, sp] =>
-    match nat? role, nat? tw, nat? sp with
-    | some role, some tw, some sp =>
-      let s' := init { role := role, twoWheeler := tw != 0, hasSpecialData := sp != 0 }
-      (s', stLine s')
-    | _, _, _ => (s, "bad-op")
-  | ["start"] => let s' := (step s .start).1; (s', stLine s')
-  | ["stop"] => let s' := (step s .stop).1; (s', stLine s')
-  | ["report", rid, its, h, v, p] =>
-    match nat? rid, optNat? its, optNat? h, optNat? v, nat? p with
-    | some rid, some its, some h, some v, some p =>
-      let s' := (step s (.report { rid := rid, its := its, heading := h, speed := v, hasPos := p != 0 })).1
+  | ["init", role, tw, sp, iso, hold] =>
+    match nat? role, nat? tw, nat? sp, nat? iso, nat? hold with
+    | some role, some tw, some sp, some iso, some hold =>
+      let s' := init { role := role, twoWheeler := tw != 0, hasSpecialData := sp != 0, ldmIsolated := iso != 0,
+                       restartHold := hold != 0 }
       (s', stLine s')
     | _, _, _, _, _ => (s, "bad-op")
-  | ["check", now, dist, ok] =>
-    match nat? now, nat? dist, nat? ok with
-    | some now, some dist, some ok =>
-      let (s', o) := step s (.check now dist (ok != 0))
+  | ["start"] => let s' := (step (fun _ _ => 0) s .start).1; (s', stLine s')
+  | ["stop"] => let s' := (step (fun _ _ => 0) s .stop).1; (s', stLine s')
+  | ["report", rid, its, h, v, la, lo] =>
+    match nat? rid, optNat? its, optNat? h, optNat? v, optInt? la, optInt? lo with
+    | some rid, some its, some h, some v, some la, some lo =>
+      let pos := match la, lo with | some a, some c => some (a, c) | _, _ => none
+      let s' := (step (fun _ _ => 0) s (.report { rid := rid, its := its, heading := h, speed := v, pos := pos })).1
+      (s', stLine s')
+    | _, _, _, _, _, _ => (s, "bad-op")
+  | ["expire", tr] =>
+    match nat? tr with
+    | some tr => let s' := (step (fun _ _ => 0) s (.expire (tr != 0))).1; (s', stLine s')
+    | none => (s, "bad-op")
+  | ["check", now, dist, f] =>
+    match nat? now, nat? dist, fail? f with
+    | some now, some dist, some f =>
+      let (s', o) := step (fun _ _ => dist) s (.check now f)
       match o with
       | none => (s', "none " ++ stLine s')
       | some c =>
